@@ -421,7 +421,9 @@ func seqCase(rep *fw.Report, cnt *counters, c seqParams) {
 		if allowed(allowedReplies(c.M2, c.V2), got) {
 			rep.Count("seq_second_reply_matches_reference", 1)
 		} else {
-			rep.Count("seq_second_reply_differs_from_reference(recorded only)", 1)
+			// the statement speaks of every Tversion, not of the first one
+			rep.Count("seq_second_reply_differs_from_reference", 1)
+			fail("tversion-seq-second-reply-differs-from-reference", fmt.Sprintf("%+v: the second Tversion{%d,%q} was answered %+v; the reference function of the statement allows %+v", c, c.M2, c.V2, got, allowedReplies(c.M2, c.V2)))
 		}
 	}
 	rep.Count("seq_"+c.Kind+"_second_"+outcome, 1)
